@@ -284,7 +284,7 @@ func Scenarios(tier string) []*Scenario {
 	l2 := threadSpec{u: long, tree: 0, steps: []step{{kind: "search", k: long.Free[1]}, {kind: "search", k: long.Free[3]}, {kind: "min"}}}
 	out = append(out, build("readers-2/alpha-longkeys", "two goroutines searching one quiescent byte-string tree with 34..71-byte keys", 1, []threadSpec{l1, l2}))
 	// a 256-way node on the leftmost path whose lowest children were deleted before the readers start
-	wide := hist.ProductTreeU8("S-WIDE", hist.FanSpec{Hold: 52, Extra: 3, Present: 2, Absent: 1, Order: 1})
+	wide := hist.WideLowDeleted()
 	wm := threadSpec{u: wide, tree: 0, steps: []step{{kind: "min"}, {kind: "search", k: wide.Free[0]}, {kind: "max"}}}
 	wn := threadSpec{u: wide, tree: 0, steps: []step{{kind: "min"}, {kind: "max"}, {kind: "search", k: wide.Free[1]}}}
 	out = append(out, build("readers-2/uint8-wide", "two goroutines asking one quiescent 256-way tree for its extremes", 1, []threadSpec{wm, wn}))
